@@ -557,11 +557,15 @@ def compare(spec, r, limit=12):
                     if not _close(ah, ar["hot"], 1e-9):
                         bad("area-hot", "%s: hot area %r, closed form %r" % (wc, ah, ar["hot"]))
                 cells = lattice_count(spec, bd, cd)
-                if cells is not None:
-                    try:
+                if cells is not None and not cells:
+                    # none of its IDs is in the map: the component is not on the lattice
+                    if type(c.spatialLocator).__name__ == "MultiIndexLocation" and len(c.spatialLocator):
+                        bad("pin-placement", "%s: lattice positions %s, the map holds none of its IDs" % (wc, list(c.spatialLocator)))
+                elif cells is not None:
+                    if type(c.spatialLocator).__name__ == "MultiIndexLocation":
                         gl = sorted(tuple(int(x) for x in l.indices[:2]) for l in c.spatialLocator)
-                    except TypeError:
-                        gl = "not a multi-location: %r" % (c.spatialLocator,)
+                    else:
+                        gl = "not on the lattice: %r" % (c.spatialLocator,)
                     if gl != cells:
                         bad("pin-placement", "%s: lattice positions %s expected %s" % (wc, gl, cells))
                 # composition
